@@ -32,6 +32,7 @@ UNIT = {
         'counter_array': {'file': H},
         'address_array': {'file': H},
         'level_array': {'file': H},
+        'bitvector': {'file': H},
     },
     'foreign': {
         'expandElementSize': {'*': 'array_watcher'},
@@ -48,6 +49,7 @@ UNIT = {
         af('expand', C, fires={'R1': 2}), af('shrink', C, fires={'R1': 2}),
         af('expand32to64', C, loops=1, fires={'R1': 1}), af('shrink64to32', C, loops=1, fires={'R1': 1}),
         lf('get'), lf('set'), lf('swap'),
+        dict(cls='bitvector', name='get', file=H), dict(cls='bitvector', name='set', file=H),
     ],
     'replay_sources': ['src/error.cc', 'src/arrays.cc', 'src/io.cc'],
     'stubs': [
@@ -72,5 +74,10 @@ UNIT = {
         job('cnt_swap', 'counter_array__swap'),
         job('cnt_expand', 'counter_array__expand', CNT_ALL),
         job('cnt_shrink', 'counter_array__shrink', CNT_ALL),
+        job('lvl_get', 'level_array__get'), job('lvl_set', 'level_array__set'), job('lvl_swap', 'level_array__swap'),
+        job('adr_get', 'address_array__get'), job('adr_expand32to64', 'address_array__expand32to64', loops=1),
+        job('adr_set', 'address_array__set', ['address_array__expand32to64']),
+        job('adr_swap', 'address_array__swap'),
+        job('bv_get', 'bitvector__get'), job('bv_set', 'bitvector__set'),
     ],
 }
